@@ -113,7 +113,7 @@ def run_case(c):
         n_cart = rec @ qd
         T = nac_term(n_cart, Z, eps, V, f, m)
         maxterm = max(maxterm, np.abs(T).max())
-        tolz = (1e-9 if c["method"] == "wang" else 1e-7) * max(np.abs(T).max(), dds * 1e-3)
+        tolz = max((1e-9 if c["method"] == "wang" else 1e-7) * max(np.abs(T).max(), dds * 1e-3), 1e-13 * np.abs(D0).max())  # floor: round-off of D itself
         for sfac in (1.0, 1e-3, 1e3):
             dm.run([0, 0, 0], q_direction=qd * sfac)
             D = np.array(dm.dynamical_matrix)
@@ -136,7 +136,7 @@ def run_case(c):
     for q in comm[:24]:
         if c["method"] == "gonze":
             qq, nties = nacgen.bz_reduce(q, pr.cell)
-            tol = 1e-8 * max(fscale, dds) if nties == 1 else 1e-3 * max(fscale, dds)
+            tol = 1e-8 * max(fscale, dds) if nties == 1 else nacgen.gl_offzone_tolerance(pr, {"born": Z, "dielectric": eps, "factor": f}, fscale)[0]
             obs["gonze_unique_bz" if nties == 1 else "gonze_tied_bz"] = obs.get("gonze_unique_bz" if nties == 1 else "gonze_tied_bz", 0) + 1
         else:
             qq = q + rng.integers(-1, 2, 3)
